@@ -980,6 +980,28 @@ class C15(SpecProp):
                 n += 1
         return lines
 
+    bins = ['h_str_rich', 'h_slice_rich', 'h_nested']
+
+    def custom_run(self, lines, tier, seed, jobs):
+        import vcheck
+        given = [l for l in lines if l.startswith('NH ')]
+        tot, fails = vcheck.run_cases(self.name, [l for l in lines if not l.startswith('NH ')], jobs=jobs,
+                                      timeout=900 if tier == 'quick' else 3600)
+        # the context across the boundary of a nested parse (provider outside `a.nested_in(b)`, readers inside `a`): C16's
+        # general-form lines `hk…`, compared with the model's reading (the inner parse starts with the outer context)
+        replaying = len(lines) < 10
+        t = C16()
+        t.name = 'C15'
+        nl = given if replaying else [l for l in t.cases(tier, seed) if l.startswith('NH hk')]
+        t2, f2 = t.custom_run(nl, tier, seed, jobs) if nl else ({'pairs': 0, 'pred_fail': 0, 'corr_disagree': 0, 'nontrivial': 0, 'outcomes': {}}, [])
+        for k in ('pairs', 'pred_fail', 'corr_disagree', 'nontrivial'):
+            tot[k] += t2[k]
+        for k, v in t2['outcomes'].items():
+            tot['outcomes']['nested-ctx:' + k] = tot['outcomes'].get('nested-ctx:' + k, 0) + v
+        if t2.get('crash'):
+            tot['crash'] = t2['crash']
+        return tot, fails + f2
+
     def group_of(self, line):
         return line.split(' ', 1)[0].lstrip('!')
 
@@ -3597,6 +3619,29 @@ class C16(Prop):
             for mode in ('parse', 'check'):
                 lines.append(f'NH h{n}{mode[0]} {ekh} {gap} {mode} 200 {self.table_str(tab)} A {gen.render(a)} '
                              f'B {gen.render(bsel)} M {gen.render(main)} I {inputs}'.replace('  ', ' '))
+        # the context crosses the boundary of a nested parse: the provider sits OUTSIDE `a.nested_in(b)`, the readers (map_with(..ctx),
+        # a `just` configured from the context, a repetition configured from it) INSIDE `a` — `with_input` shares the context
+        # reference (model: the inner state starts with the outer context)
+        kn = 0
+        ctab = [(G[0], [A, B, G[1]]), (G[1], [B, A])]
+        readers = [('collect', 'vec', ('rep', ('or', ('mwctx', ('oneof', [A, B])), hole), 0, None)),
+                   ('then', ('mwctx', ('any',)), ('collect', 'vec', ('rep', ('or', hole, ('any',)), 0, None))),
+                   ('then', ('cfgjust', 'seqctx', [B]), ('collect', 'vec', ('rep', ('or', hole, ('any',)), 0, None))),
+                   ('collect', 'vec', ('cfgrep', 'atmostctx', ('rep', ('or', hole, ('oneof', [A, B])), 0, None)))]
+        provs = [lambda x: ('withctx', ('vtoks', [A]), x), lambda x: ('iwctx', ('oneof', [A, B]), x),
+                 lambda x: ('map', 'snd', ('twctx', ('collect', 'string', ('rep', ('just', [A]), 0, 1)), x)),
+                 lambda x: ('withctx', ('vnat', 2), x)]
+        for a_ in readers:
+            for pv in provs:
+                for body in (('then', hole, rest), ('collect', 'vec', ('rep', ('or', hole, ('mwctx', ('just', [A]))), 0, None))):
+                    if ('cfgjust' in gen.ops_of(a_)) != (pv is provs[0] or pv is provs[2]) and 'cfgjust' in gen.ops_of(a_):
+                        continue          # a `just` configured from the context needs a token sequence as context
+                    if 'cfgrep' in gen.ops_of(a_) and pv is not provs[3]:
+                        continue          # … a configured repetition a number
+                    for mode in ('parse', 'check'):
+                        lines.append(f'NH hk{kn}{mode[0]} rich 1 {mode} 200 {self.table_str(ctab)} A {gen.render(a_)} '
+                                     f'B {gen.render(("select", G))} M {gen.render(pv(body))} I {inputs_all(3, [A, B, G[0], G[1]])}'.replace('  ', ' '))
+                    kn += 1
         # nested inputs and Pratt expressions together (model: EEnv / runE; `call 0` = the expression, `call 1` = a group parsed as an
         # expression, or the other way round): token trees of operator expressions, groups as atoms, expressions inside groups
         X, Y, PLUS, STAR, BANG = 120, 121, 43, 42, 33
